@@ -5,6 +5,9 @@
 
 package bigbuff
 
+//@ config engine
+//@   bvfile chancaster.go chanpubsub.go
+
 //@ func DefaultCleaner
 //@   props C03 C04
 //@   nopanic always : true
@@ -86,6 +89,7 @@ package bigbuff
 //@   modular
 //@   requires value : value != nil && ctx != nil
 //@   loop 0 invariant cnt : c <= 31 && int(c) == min(calls(value), 31)
+//@   loop 0 invariant retry : calls(value) == 0 || (lastres(value, 1) != nil && !is(lastres(value, 1), fatalError))
 //@   at-call dynamic#0 guarded : lasterr(ctx) == nil
 //@   at-call var:calcExponentialRetry#0 rate : arg0 == rate
 //@   at-call var:calcExponentialRetry>math/rand.Int63n#0 slots : int(arg0) >= 1 && arg0 == i64(u32(1) << u32(min(calls(value), 31)))
@@ -320,3 +324,165 @@ package bigbuff
 //@   at-call send#0 fresh : lasterr(ctx) == nil
 //@   ensures closedonce : closed(c)
 //@   ensures bound : sent(c) <= old(sent(c)) + count
+
+// ---------------------------------------------------------------------------------------------------
+// C11 — lock discipline of the remaining concurrent types (their functional contracts follow below)
+
+//@ lockorder consumer.mutex < Buffer.mutex < exclusiveItem.mutex < Exclusive.mutex < ChanPubSub.sendMu < ChanPubSub.sendingMu < ChanCaster.mutex < ChanPubSub.pongC < Notifier.mutex < Channel.mutex < Workers.mutex < Worker.mu
+
+//@ type Buffer as b
+//@   guard mutex : buffer offset cleaner
+//@   guardmap mutex : consumers
+//@   entryguard consumers : consumer.mutex
+//@   cond cond : mutex
+//@   frozen : cond done ctx cancel consumers
+//@   bind (producer).getAsync = (*Buffer).getAsync
+//@   bind (producer).commit = (*Buffer).commit
+//@   bind (producer).delete = (*Buffer).delete
+//@   ghostfn log(ref, int) any rigid
+//@   def end(b) = b.offset + len(b.buffer)
+//@   inv mutex off : b.offset >= 0
+//@   inv mutex win : all(i, 0, len(b.buffer), b.buffer[i] == log(b, b.offset + i))
+//@   inv mutex cons : forall(k, ref, *consumer, has(b.consumers, k) ==> b.consumers[k] >= 0)
+//@   inv mutex cleaner : b.cleaner != nil && b.cleaner.Cleaner != nil && b.cleaner.Cooldown >= 0
+//@   inv mutex wired : b.cond != nil && b.consumers != nil && b.ctx != nil && b.cancel != nil && b.done != nil
+
+//@ type consumer as c
+//@   guard mutex : offset
+//@   cond cond : mutex
+//@   frozen : cond done ctx cancel producer
+
+//@ type Exclusive as e
+//@   guard mutex : work
+
+//@ type exclusiveItem as item
+//@   guard mutex : ts wait running complete count result err work
+//@   cond cond : mutex
+//@   frozen : mutex cond
+
+//@ type Notifier as n
+//@   guard mutex : subscribers
+
+//@ type ChanPubSub as x
+//@   guard pongC : pongN
+//@   cond pongC : pongC
+//@   atomic : subscribers
+//@   frozen : pongC broken
+
+// ---------------------------------------------------------------------------------------------------
+// C01/C02/C03/C05/C12 — Buffer and its consumers (buffer.go, consumer.go, bigbuff.go).
+// log(b, i) is the i-th value ever put into b (rigid ghost history, defined by Put at the indices it
+// appends); offset = index of buffer[0]; consumers[c] = committed offset of c; c.offset = uncommitted delta.
+
+//@ func (*Buffer).ensure
+//@   props C11
+//@   # The body applies a slice of closures under the lock; its functional postcondition is not verified
+//@   # (closure slices are outside the engine's reach) and is an assumed contract at call sites.
+//@   panics nilrecv : b == nil
+//@   ensures inited : b.ctx != nil && b.cancel != nil && b.consumers != nil && b.done != nil && b.cleaner != nil && b.cond != nil
+
+//@ func (*Buffer).get
+//@   props C01 C03 C05 C12
+//@   holds R : b.mutex
+//@   requires member : true
+//@   nopanic always : true
+//@   ensures frame : unchanged(b.buffer, b.offset)
+//@   ensures hit : ret1 ==> ret2 == nil && has(b.consumers, c) && b.offset <= b.consumers[c] + offset && b.consumers[c] + offset < end(b) && ret0 == log(b, b.consumers[c] + offset)
+//@   ensures pending : !ret1 && ret2 == nil ==> has(b.consumers, c) && b.consumers[c] + offset >= end(b)
+//@   ensures past : has(b.consumers, c) && b.consumers[c] + offset < b.offset ==> ret2 != nil
+//@   ensures unknown : !has(b.consumers, c) ==> ret2 != nil
+//@   ensures closed : ret2 == nil ==> lasterr(b.ctx) == nil
+//@   ensures novalue : !ret1 ==> ret0 == nil
+
+//@ func (*Buffer).commit
+//@   props C01 C02 C04
+//@   action mutex
+//@   holds W : c.mutex
+//@   requires forward : offset >= 0
+//@   ensures known : old(has(b.consumers, c)) ==> ret == nil && has(b.consumers, c) && b.consumers[c] == old(b.consumers[c]) + offset
+//@   ensures unknown : !old(has(b.consumers, c)) ==> ret != nil && !has(b.consumers, c)
+//@   ensures others : forall(k, ref, *consumer, k != c ==> has(b.consumers, k) == old(has(b.consumers, k)) && b.consumers[k] == old(b.consumers[k]))
+//@   ensures frame : unchanged(b.buffer, b.offset)
+
+//@ func (*Buffer).delete
+//@   props C01 C04 C12
+//@   action mutex
+//@   holds W : c.mutex
+//@   ensures gone : !has(b.consumers, c)
+//@   ensures others : forall(k, ref, *consumer, k != c ==> has(b.consumers, k) == old(has(b.consumers, k)) && b.consumers[k] == old(b.consumers[k]))
+//@   ensures frame : unchanged(b.buffer, b.offset)
+
+//@ func (*Buffer).Put
+//@   props C01 C12 C04
+//@   action mutex
+//@   assume-at-release history : all(j, 0, len(values), log(b, old(end(b)) + j) == values[j])
+//@   ensures closed [C12,C01] : ret == nil ==> lasterr(b.ctx) == nil
+//@   ensures err_nop : ret != nil ==> unchanged(b.buffer, b.offset)
+//@   ensures appended : ret == nil ==> end(b) == old(end(b)) + len(values) && b.offset == old(b.offset) && all(j, 0, len(values), log(b, old(end(b)) + j) == values[j])
+//@   ensures kept : ret == nil ==> all(i, 0, old(len(b.buffer)), b.buffer[i] == old(b.buffer[i]))
+//@   ensures cons : forall(k, ref, *consumer, has(b.consumers, k) == old(has(b.consumers, k)) && b.consumers[k] == old(b.consumers[k]))
+
+//@ func (*Buffer).Slice
+//@   props C03 C01
+//@   action mutex
+//@   ensures copy : len(ret) == len(b.buffer) && all(i, 0, len(ret), ret[i] == log(b, b.offset + i)) && (ret == nil) == (b.buffer == nil)
+//@   ensures frame : unchanged(b.buffer, b.offset)
+
+//@ func (*Buffer).Size
+//@   props C03
+//@   action mutex
+//@   ensures size : ret == len(b.buffer)
+//@   ensures frame : unchanged(b.buffer, b.offset)
+
+//@ func (*Buffer).NewConsumer
+//@   props C01 C03 C12 C04
+//@   action mutex
+//@   ensures closed [C12,C01] : ret1 == nil ==> lasterr(b.ctx) == nil
+//@   ensures err : ret1 != nil ==> ret0 == nil && unchanged(b.buffer, b.offset) && forall(k, ref, *consumer, has(b.consumers, k) == old(has(b.consumers, k)) && b.consumers[k] == old(b.consumers[k]))
+//@   ensures frame : unchanged(b.buffer, b.offset)
+//@   ensures spawned : ret1 == nil ==> spawned("(*Buffer).NewConsumer$1") == 1
+
+//@ func (*Buffer).NewConsumer$1
+//@   props C12
+
+//@ func (*Buffer).Diff
+//@   props C02 C03
+//@   ensures foreign : !ret1 ==> ret0 == 0
+
+//@ func (*Buffer).consumerOffsets
+//@   props C03 C04
+//@   holds W : b.mutex
+//@   nopanic always : true
+//@   loop 0 invariant enum : 0 <= mapiter0 && mapiter0 <= len(b.consumers) && len(result) == mapiter0 && all(j, 0, mapiter0, result[j] == b.consumers[mapkey(0, j)] - b.offset)
+//@   ensures size : b != nil && b.consumers != nil ==> len(ret) == len(b.consumers)
+
+//@ func (*Buffer).cleanupLogic
+//@   props C01 C03 C04
+//@   holds W : b.mutex
+//@   requires inv : inv(b.mutex)
+//@   loop 0 invariant nil : 0 <= x && x <= shift && shift <= len(b.buffer) && len(b.buffer) == old(len(b.buffer)) && b.offset == old(b.offset) && all(j, shift, len(b.buffer), b.buffer[j] == old(b.buffer[j])) && heldW(b.mutex)
+//@   ensures shifted : b.offset >= old(b.offset) && end(b) == old(end(b)) && b.offset <= old(end(b))
+//@   ensures window : all(i, 0, len(b.buffer), b.buffer[i] == log(b, b.offset + i))
+//@   ensures cons : forall(k, ref, *consumer, has(b.consumers, k) == old(has(b.consumers, k)) && b.consumers[k] == old(b.consumers[k]))
+//@   ensures noop : !ret ==> unchanged(b.buffer, b.offset)
+
+//@ func WaitCond
+//@   props C05 C12
+//@   inline
+//@   holds-cond W : cond
+//@   ensures nilcond : cond == nil ==> ret != nil && calls(fn) == 0
+//@   ensures nilfn : fn == nil ==> ret != nil
+//@   ensures satisfied : ret == nil ==> calls(fn) >= 1 && lastres(fn, 0)
+//@   ensures ctxerr : ret != nil && cond != nil && cond.L != nil && fn != nil ==> now(ctx) != nil && ret == lasterr(now(ctx))
+//@   ensures released : cond != nil && cond.L != nil && fn != nil && cancel != nil ==> calls(cancel) >= 1
+//@   at-call (*sync.Cond).Wait#0 fresh : ctx != nil ==> lasterr(ctx) == nil
+//@   at-call (*sync.Cond).Wait#0 unsatisfied : !lastres(fn, 0)
+//@   loop 0 invariant watcher : heldcond(cond) && cond != nil && fn != nil && calls(fn) >= 0 && (cancel != nil ==> spawned("WaitCond$1") == 1 && ctx != nil && calls(cancel) == 0 && cancel != fn) && (cancel == nil ==> spawned("WaitCond$1") == 0 && ctx == old(ctx)) && (old(ctx) == nil ==> ctx == nil)
+//@   loop 0 pending-defer cancel : cancel != nil
+
+//@ func WaitCond$1
+//@   props C05 C12
+//@   modular
+//@   requires wired : cond != nil && ctx != nil
+//@   at-call (*sync.Cond).Broadcast#0 locked : cond.L != nil ==> heldcond(cond)
+//@   at-call (*sync.Cond).Broadcast#0 aftercancel : cancelled(ctx)
